@@ -21,8 +21,8 @@ impl Builder {
 }
 '''
 PLAN = dict(
-    id="C18", api_files=['tracing-log/src/lib.rs', 'tracing-log/src/log_tracer.rs'], level="other", explanation="Level / LevelFilter conversion between log and tracing is an order-preserving bijection (all 5 / 6 values, all pairs). LogTracer::log + dispatch_record: for every record level, collector verdict and published MAX_LEVEL satisfying C01's invariant (MAX_LEVEL bounds what the current collector accepts), exactly one Collect::event iff the collector accepts the record's own level and target (the collector is asked about exactly that level and that target string), else none; the event carries the record's level. An ignored crate prefix yields none (bounded: one prefix). as_trace copies level, target, file, line, module. The tracing -> log direction (log feature) and normalized_metadata are not built.",
-    functions_under_contract=['tracing-log/src/lib.rs: AsLog / AsTrace for Level, LevelFilter, log::Record, log::Metadata; dispatch_record; loglevel_to_cs', 'tracing-log/src/log_tracer.rs: LogTracer::{enabled,log}'],
+    id="C18", api_files=['tracing-log/src/lib.rs', 'tracing-log/src/log_tracer.rs'], level="other", explanation="Level / LevelFilter conversion between log and tracing is an order-preserving bijection (all 5 / 6 values, all pairs). LogTracer::log + dispatch_record: for every record level, collector verdict and published MAX_LEVEL satisfying C01's invariant (MAX_LEVEL bounds what the current collector accepts), exactly one Collect::event iff the collector accepts the record's own level and target (the collector is asked about exactly that level and that target string), else none; the event carries the record's level. An ignored crate prefix yields none (bounded: one prefix). as_trace copies level, target, file, line, module. The tracing -> log direction (log feature) and normalized_metadata are not built. Added after seed C18-3: the same one-event-iff-accepted obligation through format_trace, and that the emitted event's normalised metadata names the record's own target, level, file, line and module path.",
+    functions_under_contract=['tracing-log/src/lib.rs: format_trace (the entry point without LogTracer::enabled in front), NormalizeEvent::{normalized_metadata,is_log}', 'tracing-log/src/lib.rs: AsLog / AsTrace for Level, LevelFilter, log::Record, log::Metadata; dispatch_record; loglevel_to_cs', 'tracing-log/src/log_tracer.rs: LogTracer::{enabled,log}'],
     trusted_base=['tracing_core::dispatch::get_default and LevelFilter::current replaced by contract stubs over tagged harness state (contracts: C02, C19/C01); driving the real statics cross-crate is defeated by the Kani 0.68 constant/static aliasing (DESIGN.md 0a)', "Kani 0.68 / CBMC 6.11 / CaDiCaL; Kani's std build (nightly-2026-08-21), not the repo toolchain's", 'core::fmt::Formatter::pad stubbed to Ok(()) with -Z stubbing (panic-message formatting on infeasible error branches; no harness that uses it reads formatted text)', 'cfg(kani) thread_local! shim and once_cell::sync::Lazy contract stub (see overlay_additions)'],
     assumptions=["C01's max-level invariant as precondition", "the message text of the event is core::fmt's"],
     not_covered=['tracing with the `log` feature emitting log records (if_log_enabled!, Span::log)', 'NormalizeEvent::normalized_metadata', 'ignore lists longer than one entry'],
